@@ -77,36 +77,53 @@ Theorem C14_cross_zrot : forall cc s r a b c d, 0 < r -> cc * cc + s * s = r * r
 Proof. exact c14_arc_cross_zrot. Qed.
 Print Assumptions C14_cross_zrot.
 
-(* --- the code's longitude-interval logic (faithful model of point_within_gca) decides exactly the
+(* --- point_within_gca as coded since a3bf7a7f (undirected: on-plane test + two sign tests): for EVERY arc shorter than
+       180 degrees (through a pole, meridional, almost meridional, anywhere) and every query that is exactly on the great
+       circle or fails the on-plane tolerance, and is not within MACHINE_EPSILON beyond an endpoint, the decision is
+       exactly the specification --- *)
+Theorem C14_pwg_correct : forall a b p,
+  c14_cross a b <> (0, 0, 0) ->
+  (c14_triple a b p = 0 \/ c14_plane_ok a b p = false) ->
+  c14_clear_pt a b p ->
+  c14_pwg a b p = Some (c14_on_arc a b p).
+Proof. exact c14_pwg_correct. Qed.
+Print Assumptions C14_pwg_correct.
+
+(* --- ... and the undirected decision never depends on the order of the endpoints (no hypotheses) --- *)
+Theorem C14_pwg_swap_endpoints : forall a b p, c14_pwg a b p = c14_pwg b a p.
+Proof. exact c14_pwg_swap. Qed.
+Print Assumptions C14_pwg_swap_endpoints.
+
+(* --- HISTORICAL (code before a3bf7a7f, model c14_pwg_lonlat): the longitude-interval logic decided exactly the
        specification for every arc whose plane does not contain the polar axis --- *)
-Theorem C14_pwg_general_correct : forall a b p,
+Theorem C14_old_lonlat_general_correct : forall a b p,
   c14_z (c14_cross a b) <> 0 ->
   c14_is_pole a = false -> c14_is_pole b = false -> c14_is_pole p = false ->
   p <> (0, 0, 0) ->
   (c14_triple a b p = 0 \/ c14_plane_ok a b p = false) ->
-  c14_pwg a b p = Some (c14_on_arc a b p).
-Proof. exact c14_pwg_general_correct. Qed.
-Print Assumptions C14_pwg_general_correct.
+  c14_pwg_lonlat a b p = Some (c14_on_arc a b p).
+Proof. exact c14_lonlat_general_correct. Qed.
+Print Assumptions C14_old_lonlat_general_correct.
 
 (* --- ... and for every arc lying on one meridian half (both endpoints at the same longitude, no pole): the
        same-longitude branch (latitude interval) decides exactly the specification --- *)
-Theorem C14_pwg_meridian_correct : forall a b p,
+Theorem C14_old_lonlat_meridian_correct : forall a b p,
   c14_lon_eq (c14_lon_f a) (c14_lon_f b) = true ->
   c14_cross a b <> (0, 0, 0) ->
   c14_is_pole a = false -> c14_is_pole b = false -> c14_is_pole p = false ->
   (c14_x a <> 0 \/ c14_y a <> 0) -> (c14_x b <> 0 \/ c14_y b <> 0) -> (c14_x p <> 0 \/ c14_y p <> 0) ->
   (c14_triple a b p = 0 \/ c14_plane_ok a b p = false) ->
-  c14_pwg a b p = Some (c14_on_arc a b p).
-Proof. exact c14_pwg_meridian_correct. Qed.
-Print Assumptions C14_pwg_meridian_correct.
+  c14_pwg_lonlat a b p = Some (c14_on_arc a b p).
+Proof. exact c14_lonlat_meridian_correct. Qed.
+Print Assumptions C14_old_lonlat_meridian_correct.
 
-(* --- ... but not in the pole branch: with a pole strictly inside the arc the faithful model still violates the
-       property (open defect of /repo, reproduced on the real code by the harness) --- *)
-Theorem C14_pwg_through_pole_refuted :
+(* --- ... but not in the pole branch: with a pole strictly inside the arc the old logic violated the property
+       (fixed in /repo by a3bf7a7f) --- *)
+Theorem C14_old_lonlat_through_pole_refuted :
   exists a b p, c14_cross a b <> (0, 0, 0) /\ c14_on_arc a b (0, 0, 1) = true /\
-                c14_on_arc a b p = false /\ c14_pwg a b p = Some true.
-Proof. exact c14_pwg_through_pole_refuted. Qed.
-Print Assumptions C14_pwg_through_pole_refuted.
+                c14_on_arc a b p = false /\ c14_pwg_lonlat a b p = Some true.
+Proof. exact c14_lonlat_through_pole_refuted. Qed.
+Print Assumptions C14_old_lonlat_through_pole_refuted.
 
 (* fixed in /repo (b3cc87d4): _decide_pole_latitude picks the same pole for either order of the endpoints *)
 Theorem C14_decide_pole_order_independent : forall l1 l2,
@@ -115,10 +132,10 @@ Theorem C14_decide_pole_order_independent : forall l1 l2,
 Proof. exact c14_decide_pole_sym. Qed.
 Print Assumptions C14_decide_pole_order_independent.
 
-Theorem C14_pwg_swap_refuted :
-  exists a b p, c14_cross a b <> (0, 0, 0) /\ c14_pwg a b p <> c14_pwg b a p.
-Proof. exact c14_pwg_swap_refuted. Qed.
-Print Assumptions C14_pwg_swap_refuted.
+Theorem C14_old_lonlat_swap_refuted :
+  exists a b p, c14_cross a b <> (0, 0, 0) /\ c14_pwg_lonlat a b p <> c14_pwg_lonlat b a p.
+Proof. exact c14_lonlat_swap_refuted. Qed.
+Print Assumptions C14_old_lonlat_swap_refuted.
 
 (* --- gca_gca_intersection (faithful model) returns exactly the specified common points whenever its four
        membership tests are right and the circles are not numerically parallel --- *)
@@ -133,20 +150,18 @@ Theorem C14_gca_gca_structure : forall w0 w1 v0 v1,
 Proof. exact c14_gca_gca_structure. Qed.
 Print Assumptions C14_gca_gca_structure.
 
-(* --- end to end: for two arcs in general position (neither plane contains the polar axis, no endpoint and neither candidate
-       in the pole snap zone, circles not numerically parallel) gca_gca_intersection's model returns exactly the specified
+(* --- end to end, no restriction on the position of the arcs: when the circles are not numerically parallel and neither
+       candidate is within MACHINE_EPSILON beyond an endpoint, gca_gca_intersection's model returns exactly the specified
        common points --- *)
-Theorem C14_gca_gca_general_correct : forall w0 w1 v0 v1,
+Theorem C14_gca_gca_correct : forall w0 w1 v0 v1,
   let x := c14_cross (c14_cross w0 w1) (c14_cross v0 v1) in
   let q := c14_nsq w0 * c14_nsq w1 * c14_nsq v0 * c14_nsq v1 in
   c14_small (c14_x x) q && c14_small (c14_y x) q && c14_small (c14_z x) q = false ->
   x <> (0, 0, 0) ->
-  c14_z (c14_cross w0 w1) <> 0 -> c14_z (c14_cross v0 v1) <> 0 ->
-  c14_is_pole w0 = false -> c14_is_pole w1 = false -> c14_is_pole v0 = false -> c14_is_pole v1 = false ->
-  c14_is_pole x = false ->
+  c14_clear_pt w0 w1 x -> c14_clear_pt v0 v1 x -> c14_clear_pt w0 w1 (c14_neg x) -> c14_clear_pt v0 v1 (c14_neg x) ->
   c14_gca_gca w0 w1 v0 v1 = Some (c14_arc_cross w0 w1 v0 v1).
-Proof. exact c14_gca_gca_general_correct. Qed.
-Print Assumptions C14_gca_gca_general_correct.
+Proof. exact c14_gca_gca_correct. Qed.
+Print Assumptions C14_gca_gca_correct.
 
 (* --- extreme latitude: the apex |n|^2 e_z - n_z n is on the circle and no point of the circle is higher --- *)
 Theorem C14_apex_highest : forall n q, n <> (0, 0, 0) -> c14_dot n q = 0 ->
